@@ -94,6 +94,9 @@ func genC10Node(t *rapid.T, depth int, budget *int, contract int, pairs *[][2]in
 		if n.Amt == "0" || n.Amt == "alw" {
 			n.Amt = fmt.Sprintf("%d", rapid.Uint64Range(1, 5000).Draw(t, "grant"))
 		}
+		if rapid.IntRange(0, 4).Draw(t, "grantboundary") == 0 {
+			n.Amt = rapid.SampledFrom(c10BoundaryAmounts).Draw(t, "grantboundaryamt")
+		}
 		*pairs = append(*pairs, [2]int{me, n.B})
 	case "transferFrom", "burnFrom":
 		// steer towards owners that granted this contract an allowance (before the tx or earlier in the tree)
@@ -116,7 +119,7 @@ func genC10Tree(t *rapid.T) c10TreeCase {
 	var pairs [][2]int
 	for n := rapid.IntRange(0, 4).Draw(t, "ngrants"); n > 0; n-- {
 		g := c10Grant{Owner: rapid.IntRange(0, 5).Draw(t, "owner"), Spender: rapid.IntRange(3, 5).Draw(t, "spender"),
-			Amt: rapid.SampledFrom([]string{"max", "1", "700", "5000", "100000", "7"}).Draw(t, "grantamt")}
+			Amt: rapid.SampledFrom([]string{"max", "1", "700", "5000", "100000", "7", "255", "256", "65535", "18446744073709551616"}).Draw(t, "grantamt")}
 		cs.Grants = append(cs.Grants, g)
 		pairs = append(pairs, [2]int{g.Owner, g.Spender})
 	}
